@@ -50,6 +50,18 @@ CLAIMED = {
                 "F-COHERENCE set witnesses replayed from known_findings.json.",
         "technique": TECH_E2,
     },
+    "C06": {
+        "category": "model_checking",
+        "text": "Model-trace conformance: every valid species mapping enumerated by the reference model (quick: inputs <=4x<=3 leaves; "
+                "thorough <=4x<=4 and 5x<=3), every ordered labelling (root abc/ab, each node any non-empty subsequence of its parent's) "
+                "and every valid unordered labelling on the small labelled slices is loaded into a real (Super)ReconciliationOutput and "
+                "evaluated by node_event / reconciliation_cost / labeling_cost / cost under 12 cost vectors (incoherent, zero and infinite "
+                "included); states = model solutions, transitions = (solution, vector) evaluations, every trace replayed on the implementation. "
+                "CLI clause: printed minimum vs model cost of each written object on a <=3x<=2 sub-slice, 7 algorithms.",
+        "design_ref": "6 (C06), 5.2",
+        "note": "Trusted: the documented event model as transcribed in refmodel/{dtl,ordered,unordered}.py; ete3; the in-process CLI driver.",
+        "technique": "exhaustive enumeration of model states (solutions) with every trace replayed against the implementation's evaluator",
+    },
     "C16": {
         "category": "model_checking",
         "text": "Explicit-state BFS over all reachable states of real Entry objects and table cells (1-3 dimensional, "
